@@ -250,6 +250,16 @@ func (s *gen) Init(wk *ksim.Worker) *ksim.World {
 
 	w.Sync(1, l.ClientB, 0)
 	w.Sync(0, l.ClientA, 1)
+	// consensus states at every height up to 48 on both clients: the tendermint iteration keys are binary
+	// (big-endian revision and height), and height 47 = 0x2f puts the path separator '/' into a stored key
+	// that the client genesis export has to split and re-join
+	for w.CS[0].H() <= 48 || w.CS[1].H() <= 48 {
+		if w.CS[0].H() <= w.CS[1].H() {
+			w.Sync(1, l.ClientB, 0)
+		} else {
+			w.Sync(0, l.ClientA, 1)
+		}
+	}
 	s.mu.Lock()
 	s.fx = fx
 	s.mu.Unlock()
